@@ -77,6 +77,10 @@ class Oracle:
     def __init__(self, cfg):
         self.thr = Fr(cfg["thr"]) if cfg.get("thr") is not None else None
         self.k = Fr(cfg.get("k", "1/1")) if cfg["kind"] == "sys" else Fr(1)
+        # FIR stage of the front end (memory of len(taps)-1 samples): on a grid of step dt the output at t is
+        # sum_m taps[m] * input(t - m*dt), the input being the (gain times the) sum of the received signals at ANY
+        # time, also before the requested window (that is what the lead-in is for)
+        self.taps = [Fr(c) for c in cfg["taps"]] if cfg["kind"] == "sys" and cfg.get("taps") else [Fr(1)]
         self.received = []
 
     def trig(self, vals):
@@ -84,8 +88,13 @@ class Oracle:
             return True
         return max(abs(v) for v in vals) > self.thr
 
+    def fe_of(self, sigs, times):
+        dt = times[1] - times[0]
+        return [sum((c * self.k * sum((interp_fr(t - m * dt, ts, vs) for ts, vs in sigs), Fr(0))
+                     for m, c in enumerate(self.taps)), Fr(0)) for t in times]
+
     def wave(self, times):
-        return (list(times), [self.k * sum((interp_fr(t, ts, vs) for ts, vs in self.received), Fr(0)) for t in times])
+        return (list(times), self.fe_of(self.received, times))
 
     def all(self):
         return [self.wave(ts) for ts, _ in self.received]
@@ -109,7 +118,7 @@ class Oracle:
         if kind == "during":
             return self.trig(self.wave(grid_times(op[1]))[1])
         if kind == "signals":
-            return [(list(ts), [self.k * v for v in vs]) for ts, vs in self.received]
+            return [(list(ts), self.fe_of([(ts, vs)], ts)) for ts, vs in self.received]
         raise ValueError(kind)
 
 
@@ -138,11 +147,20 @@ def _classes():
 
     class LinSystem(AntennaSystem):
         k = 1.0
+        taps = None
 
         def front_end(self, signal):
-            if self.k == 1.0:
-                return super().front_end(signal)
-            return signal * self.k
+            if self.taps is None:
+                if self.k == 1.0:
+                    return super().front_end(signal)
+                return signal * self.k
+            # gain followed by an FIR filter on the samples (front end with memory; zero initial state)
+            x = np.asarray(signal.values) * self.k
+            y = np.zeros(len(x))
+            for m, c in enumerate(self.taps):
+                if m < len(x):
+                    y[m:] += c * x[:len(x) - m]
+            return Signal(signal.times, y, value_type=signal.value_type)
 
     return dict(Antenna=Antenna, DipoleAntenna=DipoleAntenna, AntennaSystem=AntennaSystem, Signal=Signal,
                 ExactAntenna=ExactAntenna, LinSystem=LinSystem)
@@ -170,6 +188,8 @@ def build(cfg, noisy=False):
             s = C["LinSystem"](a)
             s.lead_in_time = float(Fr(cfg.get("lead_in", "0/1")))
             s.k = float(Fr(cfg.get("k", "1/1")))
+            if cfg.get("taps"):
+                s.taps = [float(Fr(c)) for c in cfg["taps"]]
             return s
         return a
     if kind == "real":
@@ -245,7 +265,8 @@ def cfg_lit(cfg, invalidate=True):
     inv = "true" if invalidate else "false"
     base = "(cfg_thr %s %s)" % (qlit(Fr(cfg["thr"])), inv) if cfg.get("thr") is not None else "(cfg_plain %s)" % inv
     if cfg["kind"] == "sys":
-        return "(mkSConfig %s %s %s)" % (base, qlit(Fr(cfg.get("lead_in", "0/1"))), qlit(Fr(cfg.get("k", "1/1"))))
+        return "(mkSConfig %s %s %s %s)" % (base, qlit(Fr(cfg.get("lead_in", "0/1"))), qlit(Fr(cfg.get("k", "1/1"))),
+                                            qlist([Fr(c) for c in cfg.get("taps") or []]))
     return base
 
 
@@ -428,6 +449,14 @@ def rand_cfg(rng, i):
     if kind == "sys":
         cfg["lead_in"] = fs(rng.choice([Fr(0), Fr(0), Fr(1, 2), Fr(3), Fr(11, 4), Fr(10), Fr(1, 8)]))
         cfg["k"] = fs(rng.choice([Fr(1), Fr(1), Fr(2), Fr(-1), Fr(1, 2), Fr(3)]))
+        if rng.random() < 0.6:
+            # front end with memory: delay line / 2-tap / 3- or 4-tap FIR on the samples; the lead-in must cover
+            # the memory for every grid step used (dt <= 2): lead_in >= (len(taps)-1)*2
+            taps = rng.choice([[0, 1], [0, 0, 1], [0, 0, 0, 1], [1, -1], [Fr(1, 2), Fr(1, 2)], [1, 2, -1],
+                               [Fr(1, 4), Fr(1, 2), Fr(1, 4)], [2, 0, 0, -1], [0, 0, 0, 0, 0, 1]])
+            mem = len(taps) - 1
+            cfg["taps"] = [fs(Fr(c)) for c in taps]
+            cfg["lead_in"] = fs(rng.choice([Fr(2 * mem), Fr(2 * mem) + Fr(1, 2), Fr(2 * mem) + Fr(11, 4), Fr(4 * mem + 3)]))
     return cfg
 
 
@@ -642,6 +671,73 @@ def noise_history_bad(cfg, hist, seed):
     return None
 
 
+# ------------------------------------------------------------------ lead-in grid (pure function), compared directly
+def leadin_impl(lead_in, grid):
+    cfg = {"kind": "sys", "lead_in": fs(lead_in), "k": "1/1"}
+    obj = build(cfg)
+    out = obj._calculate_lead_in_times(np_times(grid_times(grid)))
+    return [Fr(float(t)) for t in out]
+
+
+def leadin_oracle_bad(lead_in, grid, out):
+    """The lead-in grid must preserve dt: it ends with the requested times, every step (also the one into
+    times[0]) is exactly dt, and it reaches back at least lead_in_time. Returns text or None."""
+    ts = grid_times(grid)
+    dt = ts[1] - ts[0]
+    if len(out) < len(ts) or out[len(out) - len(ts):] != ts:
+        return "does not end with the requested times"
+    pre = out[:len(out) - len(ts)] + [ts[0]]
+    for a, b in zip(pre, pre[1:]):
+        if b - a != dt:
+            return "step %s between lead-in samples %s and %s instead of dt=%s" % (b - a, a, b, dt)
+    if ts[0] - pre[0] < lead_in:
+        return "reaches back only %s < lead_in_time %s" % (ts[0] - pre[0], lead_in)
+    return None
+
+
+def leadin_check(ctx, n_cases):
+    rng = ctx.rng
+    cases = []
+    for _ in range(n_cases):
+        L = rng.choice([Fr(0), Fr(1, 8), Fr(1, 2), Fr(3), Fr(11, 4), Fr(10), Fr(25, 4), Fr(7), Fr(rng.randint(0, 160), 8)])
+        g = rand_grid(rng, -40, 60)
+        g["n"] = rng.choice([2, 3, 4, 5, 8, 9, 16, 31, 40, rng.randint(2, 64)])
+        cases.append((L, g))
+    exprs = ["enc_Qs (lead_in_times (mkSConfig (cfg_plain true) %s 1 []) %s)" % (qlit(L), qlist(grid_times(g))) for L, g in cases]
+    try:
+        vals = ctx.coq_eval_exprs(IMPORTS, exprs, chunk=max(1, (len(exprs) + 7) // 8))
+        model = []
+        for v in vals:
+            z = parse_zlist(v)
+            model.append([Fr(z[1 + 2 * i], z[2 + 2 * i]) for i in range(z[0])])
+    except Exception as e:   # noqa
+        ctx.oblige("corr:lead_in_times-model-evaluates", False, str(e)[-800:])
+        model = [None] * len(cases)
+    n_prop = n_corr = 0
+    detail = ""
+    for (L, g), mo in zip(cases, model):
+        try:
+            out = leadin_impl(L, g)
+            bad = leadin_oracle_bad(L, g, out)
+        except Exception as e:   # noqa
+            out, bad = None, "exception %s: %s" % (type(e).__name__, str(e)[:150])
+        ctx.case(key=("leadin", fs(L), json.dumps(g, sort_keys=True)), nontrivial=L > 0,
+                 sample={"lead_in": fs(L), "window": g, "lead_in_points": (len(out) - g["n"]) if out else None} if n_prop + n_corr == 0 and L > 1 and len(ctx.samples) < 5 and g["n"] > 8 else None)
+        if bad:
+            n_prop += 1
+            if n_prop <= 2:
+                ctx.fail("leadin:%s:%s" % (fs(L), json.dumps(g, sort_keys=True)),
+                         "AntennaSystem._calculate_lead_in_times(lead_in_time=%s, window t0=%s dt=%s n=%d) does not preserve dt: %s "
+                         "(a front end with memory then sees a non-uniformly sampled input)" % (L, g["t0"], g["dt"], g["n"], bad),
+                         {"kind": "leadin", "lead_in": fs(L), "grid": g})
+        elif mo is not None and out != mo:
+            n_corr += 1
+            detail = "lead_in=%s window=%s impl=%s model=%s" % (L, g, [str(x) for x in out][:12], [str(x) for x in mo][:12])
+    ctx.oblige("corr:lead_in_times impl=oracle(dt preserved)", n_prop == 0, "%d windows" % n_prop)
+    ctx.oblige("corr:lead_in_times impl=model", n_corr == 0 and n_prop == 0, detail)
+    ctx.extra["lead_in_grid_cases"] = {"windows": len(cases), "not_dt_preserving": n_prop, "model_disagreements": n_corr}
+
+
 # ------------------------------------------------------------------ the check
 F9_HISTORY = [["recv", {"t0": "0/1", "dt": "1/1", "n": 8, "vals": ["0/1", "1/1", "2/1", "3/1", "3/1", "2/1", "1/1", "0/1"]}],
               ["all"],
@@ -765,6 +861,9 @@ def run(ctx):
     except Exception as e:   # noqa
         ctx.oblige("witness:stale_cache_refuted-replayed", False, str(e)[-600:])
 
+    # lead-in grid compared directly (pure function)
+    leadin_check(ctx, ctx.n(150, 3000))
+
     # noise probes (implementation only)
     n_noise = ctx.n(60, 2000)
     ctx.extra["noise_probe_histories"] = noise_probe(ctx, n_noise)
@@ -780,6 +879,20 @@ def replay(ctx, obj):
         r = noise_history_bad(obj["cfg"], obj["history"], obj["np_seed"])
         print("noise history [%s] on %s: %s" % (summarize(obj["history"]), obj["cfg"], r or "consistent"))
         return 1 if r else 0
+    if obj.get("kind") == "leadin":
+        L, g = Fr(obj["lead_in"]), obj["grid"]
+        out = leadin_impl(L, g)
+        bad = leadin_oracle_bad(L, g, out)
+        print("lead_in_time=%s window=%s" % (L, g))
+        print("implementation lead-in grid: %s" % [str(x) for x in out])
+        try:
+            v = ctx.coq_eval_exprs(IMPORTS, ["enc_Qs (lead_in_times (mkSConfig (cfg_plain true) %s 1 []) %s)" % (qlit(L), qlist(grid_times(g)))])[0]
+            z = parse_zlist(v)
+            print("coq model lead-in grid     : %s" % [str(Fr(z[1 + 2 * i], z[2 + 2 * i])) for i in range(z[0])])
+        except Exception as e:   # noqa
+            print("model evaluation failed: %s" % str(e)[-300:])
+        print("dt preserved: %s" % (bad or "yes"))
+        return 1 if bad else 0
     if obj.get("kind") != "history":
         print(json.dumps(obj, indent=1)[:3000])
         return 1
